@@ -29,11 +29,18 @@ QUERIES = "query GetUser($id: ID!) { user(id: $id) { id name } }\n"
 
 
 def _snapshot(root):
+    """every directory, and every file with content hash and modification time: creating a directory or an empty file,
+    rewriting or touching an existing file all count as `created or modified`"""
     out = {}
-    for d, _, files in os.walk(root):
+    for d, dirs, files in os.walk(root):
+        for sub in dirs:
+            if sub != "__pycache__":
+                out[os.path.relpath(os.path.join(d, sub), root) + os.sep] = "dir"
+        if os.path.basename(d) == "__pycache__":
+            continue
         for f in files:
             p = os.path.join(d, f)
-            out[os.path.relpath(p, root)] = hashlib.sha256(open(p, "rb").read()).hexdigest()[:12]
+            out[os.path.relpath(p, root)] = (hashlib.sha256(open(p, "rb").read()).hexdigest()[:12], os.stat(p).st_mtime_ns)
     return out
 
 
@@ -151,6 +158,10 @@ def _violations(sb):
         ("bad-target-file-type:no-suffix", "schema", S(target_file_path=sb.p("schema_out/python")), (EX.InvalidConfiguration,)),
         ("schema-strategy-no-source", "schema", S(schema_path=_DROP), (EX.InvalidConfiguration, EX.MissingConfiguration)),
         ("schema-strategy-syntax", "schema", S(schema_path=sb.p("bad_syntax.graphql")), (EX.InvalidGraphqlSyntax,)),
+        # the same failures with a target file that does not exist yet in the existing directory (no file may appear)
+        ("schema-strategy-syntax:fresh-target", "schema", S(schema_path=sb.p("bad_syntax.graphql"), target_file_path=sb.p("schema_out/fresh_schema.py")), (EX.InvalidGraphqlSyntax,)),
+        ("schema-strategy-syntax:fresh-graphql-target", "schema", S(schema_path=sb.p("bad_syntax.graphql"), target_file_path=sb.p("schema_out/fresh_schema.graphql")), (EX.InvalidGraphqlSyntax,)),
+        ("client-syntax-in-queries:fresh-target", "client", C(queries_path=sb.p("bad_queries.graphql"), target_package_name="fresh_pkg"), (EX.InvalidGraphqlSyntax,)),
     ]
     for opt in ("target_package_name", "client_name", "client_file_name", "base_client_name", "enums_module_name",
                 "input_types_module_name", "fragments_module_name"):
@@ -168,6 +179,7 @@ def _violations(sb):
             n = f[len("invalid_schema_"):-len(".graphql")]
             v.append((f"invalid-schema:{n}", "client", C(schema_path=sb.p(f), queries_path=sb.p("typename_query.graphql")), (CODEGEN,)))
             v.append((f"invalid-schema:{n}:graphqlschema", "schema", S(schema_path=sb.p(f)), (CODEGEN,)))
+            v.append((f"invalid-schema:{n}:graphqlschema:fresh-target", "schema", S(schema_path=sb.p(f), target_file_path=sb.p("schema_out/fresh_schema.py")), (CODEGEN,)))
             v.append((f"invalid-schema:{n}:custom-operations-without-queries", "client",
                       C(schema_path=sb.p(f), queries_path=_DROP, enable_custom_operations=True), (CODEGEN,)))
     return v
